@@ -90,6 +90,10 @@ def gen_itp(rng, tier, rich, big=None):
     if big:
         n = rng.randint(1000, 1400 if tier == "quick" else 3000)
         shape = rng.choice(["chain", "chain", "caterpillar", "uniform"])
+    elif not rich and rng.random() < 0.06:
+        # sizes around the interpreter's stack budget (default and the reduced ones of this engine), long paths
+        n = rng.choice([rng.randint(61, 999), rng.randint(200, 420), rng.randint(900, 999), rng.randint(990, 999)])
+        shape = rng.choice(["chain", "chain", "caterpillar"])
     else:
         n = rng.choice([1, 2, 3, rng.randint(1, 12), rng.randint(1, 60), rng.randint(1, 60)])
         shape = None
